@@ -78,7 +78,11 @@ def judge_core(ctx, case, resp):
     r1, r2 = resp
     labels = sorted(cons)
     for r in (r1, r2):
-        if "panic" in r or "died" in r or "timeout" in r:
+        if "timeout" in r and "panic" not in r and "died" not in r:
+            # slow, not wrong (see C13): a generated iteration over tens of thousands of combinations; termination is C05's subject
+            ctx.note(key=text, nontrivial=False, labels=["timeout: not judged (slow generated expression)"])
+            return None
+        if "panic" in r or "died" in r:
             ctx.note(key=text, nontrivial=False, labels=["crash(C05)"])
             return Fail("C01/crash@%s" % r.get("location", "?"), "evaluating %s: %r\n  bindings %r" % (text, r, case["bindings"]))
     if "values" not in r1:
